@@ -55,8 +55,9 @@ OWN = {
             BASE + r'Attribute\.__get__$'],
     'C08': [PT_RUNTIME, DT + r'\w+\.__init__$', VAL + r'\w+\.(validate\w*|__init__)$', BASE + r'(Attribute\.__set__|Union\.__init__)$',
             PT + r'(generate_validator_constructor|generate_func_call)$'],
-    'C09': [EMIT, PT, B + r'python_helpers\.', API + r'ApiNamespace\.get_imported_namespaces$'],
-    'C10': [PT_RUNTIME, DT + r'\w+\.__init__$', DT + r'\w+\.(check|check_example|_compute_example\w*|get_examples|_add_example\w*|'
+    'C09': [EMIT, PT, B + r'python_helpers\.', API + r'ApiNamespace\.get_imported_namespaces$',
+            IG + r'_resolve_type$'],        # records which namespaces a module must import
+    'C10': [PT_RUNTIME, BASE + r'Attribute\.', DT + r'\w+\.__init__$', DT + r'\w+\.(check|check_example|_compute_example\w*|get_examples|_add_example\w*|'
                  r'_has_example)$', IG + r'(_populate_field_defaults|_create_struct_field)$',
             PT + r'PythonTypesBackend\.(_generate_struct_attributes_defaults|'
                  r'_generate_python_value|_generate_struct_class_properties)$'],
@@ -76,9 +77,9 @@ OWN = {
             IG + r'(_validate_annotations|_validate_field_can_be_tagged_with_redactor)'],
     'C14': [EMIT, B + r'python_client\.', B + r'python_helpers\.(fmt_func|fmt_obj|check_route_name_conflict)$',
             r'stone\.backend\.remove_aliases_from_api$', r'stone\.ir\.data_types\.(unwrap|resolve)_'],
-    'C15': [EMIT, B + r'python_type_stubs\.', B + r'python_type_mapping\.'],
+    'C15': [EMIT, B + r'python_type_stubs\.', B + r'python_type_mapping\.', IG + r'_resolve_type$'],
     'C16': [EMIT, B + r'js_client\.', B + r'js_types\.', B + r'js_helpers\.', B + r'tsd_client\.',
-            B + r'tsd_types\.', B + r'tsd_helpers\.', B + r'helpers\.'],
+            B + r'tsd_types\.', B + r'tsd_helpers\.', B + r'helpers\.', IG + r'_resolve_type$'],
     'C17': [EMIT, B + r'swift\.', B + r'swift_types\.', B + r'swift_client\.', B + r'swift_helpers\.',
             B + r'obj_c\.', B + r'obj_c_types\.', B + r'obj_c_client\.', B + r'obj_c_helpers\.'],
     'C18': [r'stone\.backend\.', r'stone\.compiler\.',
